@@ -421,8 +421,11 @@ def main():
         "wall_s": round(time.time() - t0, 2),
         "violations": len(violations),
     }
-    os.makedirs(os.path.join(VERIF, "evidence"), exist_ok=True)
-    with open(os.path.join(VERIF, "evidence", f"{prop}.json"), "w") as f:
+    # VERIF_EVIDENCE_DIR: used by tools/seedrun.py so that runs against a deliberately broken tree do
+    # not overwrite the evidence of the real tree
+    evdir = os.environ.get("VERIF_EVIDENCE_DIR") or os.path.join(VERIF, "evidence")
+    os.makedirs(evdir, exist_ok=True)
+    with open(os.path.join(evdir, f"{prop}.json"), "w") as f:
         json.dump(evidence, f, indent=1)
 
     print(f"{prop} [{tier}] proof: {len(P['discharged'])}/{len(P['obligations'])} theorems; correspondence: {len(E['cases'])} cases, {len(disagreements)} disagreements; oracle: {n_oracle} evaluations, {len(E['oracle_fail'])} failures ({len(known_hits)} known); {time.time()-t0:.1f}s")
